@@ -140,6 +140,9 @@ class CfgScenario(explore.Scenario):
         out.append(["isub_self"])
         for k in ("ior_self", "iand_self", "update_self", "update_gen"):
             out.append([k])
+        # another IR / CFG constructed FROM this CFG object is a copy:
+        # editing it must not change this one (model stays as it is)
+        out.append(["ctor_from_cfg"])
         # observations are operations too: a lookup may plant hidden state
         # (a cached view, a hint) that only a later edit + lookup exposes
         for nm in sorted(w.nodes):
@@ -202,6 +205,8 @@ class CfgScenario(explore.Scenario):
             want_ret = "self"
         elif kind in ("ior_self", "iand_self"):
             want_ret = "self"
+        elif kind == "ctor_from_cfg":
+            want_ret = "any"
         exc = None
         res = None
         try:
@@ -243,6 +248,15 @@ class CfgScenario(explore.Scenario):
                 res = operator.ixor(cfg, cfg)
             elif kind == "isub_self":
                 res = operator.isub(cfg, cfg)
+            elif kind == "ctor_from_cfg":
+                g_ = w.g
+                for other in (g_.IR(cfg=cfg).cfg, g_.CFG(cfg)):
+                    if len(other) != len(M):
+                        v.append(("C11/constructed-copy-differs", ""))
+                    other.add(g_.Edge(g_.ProxyBlock(), g_.ProxyBlock()))
+                    for e_ in list(other)[:2]:
+                        other.discard(e_)
+                    other.clear()
             elif kind == "ior_self":
                 res = operator.ior(cfg, cfg)
             elif kind == "iand_self":
